@@ -72,3 +72,54 @@ def asyncfifo_small_depth_does_not_elaborate(v):
         d.get("exception") == "IndexError" and \
         ((d.get("cls") == "AsyncFIFO" and d.get("depth_arg") == 1) or
          (d.get("cls") == "AsyncFIFOBuffered" and d.get("depth_arg") in (1, 2)))
+
+
+def _t_sigs(t, acc):
+    op = t[0]
+    if op == "sig":
+        acc.append(t[1])
+    elif op in ("slice", "part", "as_signed", "as_unsigned"):
+        _t_sigs(t[1], acc)
+    elif op in ("cat", "array"):
+        for p in t[1]:
+            _t_sigs(p, acc)
+    return acc
+
+
+def _has_dup_cat(t):
+    op = t[0]
+    if op == "cat":
+        leaves = []
+        for p in t[1]:
+            _t_sigs(p, leaves)
+        if len(leaves) != len(set(leaves)):
+            return True
+    if op in ("slice", "part", "as_signed", "as_unsigned"):
+        return _has_dup_cat(t[1])
+    if op in ("cat", "array"):
+        return any(_has_dup_cat(p) for p in t[1])
+    return False
+
+
+def _partial_over_dup_cat(t):
+    """A slice/part (partial assignment) applied, directly or through nesting, to a Cat that lists
+    the same signal more than once."""
+    op = t[0]
+    if op in ("slice", "part") and _has_dup_cat(t[1]):
+        return True
+    if op in ("slice", "part", "as_signed", "as_unsigned"):
+        return _partial_over_dup_cat(t[1])
+    if op in ("cat", "array"):
+        return any(_partial_over_dup_cat(p) for p in t[1])
+    return False
+
+
+@predicate
+def lhs_partial_write_over_duplicate_cat(v):
+    """F14: the compiled simulator implements a partial assignment to a Cat(...) target as a
+    read-modify-write of the *whole* concatenation; when the same signal occurs twice in the Cat the
+    later (unmodified) copy overwrites the addressed bits.  The testbench writer, the documented
+    semantics and the netlist touch exactly the addressed bits."""
+    d = v.get("detail", {})
+    t = d.get("target")
+    return bool(t) and d.get("deviates") == "circuit" and _partial_over_dup_cat(t)
